@@ -440,7 +440,7 @@ Inductive ul_mode := UUpload | URaw | UReads (caps : list Z).   (* upload() / op
    the data types of the members it lists *)
 Inductive odshape :=
 | ONone                                        (* index not in the dictionary *)
-| OVarT (dt : option Z)                        (* ODVariable: found whatever the sub-index *)
+| OVarT (dt : option Z)                        (* a plain OD variable: found whatever the sub-index *)
 | ORecT (members : list (Z * option Z))        (* ODRecord.get(subindex) *)
 | OArrT (members : list (Z * option Z)).       (* ODArray.get(subindex) *)
 
